@@ -287,9 +287,9 @@ Violation ComputeViolation(
       return {viol, x[resvar]};
     case Context::CTX_NEG:
       return {-viol, x[resvar]};
-    default:
-      return {INFINITY, 0.0};
-    }
+    default:       // no context (e.g., the only use was decided
+      return {std::fabs(viol), x[resvar]};   // in preprocessing):
+    }              // the solver receives an equality
   }
   return                              // recomputed var minus solver's
   { std::fabs(x[resvar] - x.raw(resvar))
@@ -407,8 +407,10 @@ public:
       if (has_arg >= ccon_valid)
         return {0.0, 0.0};
       return {-viol.viol_, viol.valX_};
-    default:
-      return {INFINITY, 0.0};
+    default:                  // no context: as CTX_MIX
+      if (has_arg == ccon_valid)
+        return {0.0, 0.0};
+      return {std::fabs(viol.viol_), viol.valX_};
     }
   }
 };
